@@ -15,6 +15,7 @@ import (
 func init() {
 	verifRegister("HarnessC07_Two", HarnessC07_Two)
 	verifRegister("HarnessC07_Three", HarnessC07_Three)
+	verifRegister("HarnessC07_Indexed", HarnessC07_Indexed)
 }
 
 const (
@@ -166,3 +167,93 @@ func c07Run(T int) {
 
 func HarnessC07_Two()   { c07Run(2) }
 func HarnessC07_Three() { c07Run(3) }
+
+// ---- a function-valued shared variable accessed through indices: bal = [k1 |-> x, k2 |-> y], invariant bal[k1]+bal[k2] ----
+//
+// Each context runs one transfer section (bal[k1] -= a; bal[k2] += a) whose first attempts may be aborted by a false
+// await after the first indexed write (symbolic), and one audit section reading both entries.
+func HarnessC07_Indexed() {
+	x0, y0 := verifNondetInt32("x0"), verifNondetInt32("y0")
+	verifAssume(x0 >= -1000 && x0 <= 1000 && y0 >= -1000 && y0 <= 1000)
+	k1, k2 := tla.MakeString("k1"), tla.MakeString("k2")
+	mgr := NewLocalSharedManager(tla.MakeRecord([]tla.RecordField{{Key: k1, Value: tla.MakeNumber(x0)}, {Key: k2, Value: tla.MakeNumber(y0)}}))
+	sum := x0 + y0
+	var net int32
+	done := make(chan error, 2)
+	names := []string{"A", "B"}
+	for t := 0; t < 2; t++ {
+		name := names[t]
+		a := verifNondetInt32("amount")
+		verifAssume(a >= -100 && a <= 100)
+		net += a
+		aborts := verifChoose("aborts", 2)
+		idx := func(iface distsys.ArchetypeInterface, k tla.Value) (int32, error) {
+			h, err := iface.RequireArchetypeResourceRef(name + ".bal")
+			if err != nil {
+				return 0, err
+			}
+			v, err := iface.Read(h, []tla.Value{k})
+			if err != nil {
+				return 0, err
+			}
+			return v.AsNumber(), nil
+		}
+		put := func(iface distsys.ArchetypeInterface, k tla.Value, n int32) error {
+			h, err := iface.RequireArchetypeResourceRef(name + ".bal")
+			if err != nil {
+				return err
+			}
+			return iface.Write(h, []tla.Value{k}, tla.MakeNumber(n))
+		}
+		sections := []distsys.MPCalCriticalSection{
+			{Name: name + ".transfer", Body: func(iface distsys.ArchetypeInterface) error {
+				x, err := idx(iface, k1)
+				if err != nil {
+					return err
+				}
+				y, err := idx(iface, k2)
+				if err != nil {
+					return err
+				}
+				verifAssert(x+y == sum, "indexed shared variable: a section never sees a partial or aborted update")
+				if err := put(iface, k1, x-a); err != nil {
+					return err
+				}
+				verifYield()
+				if aborts > 0 {
+					aborts--
+					return distsys.ErrCriticalSectionAborted // a false await after the first indexed write
+				}
+				if err := put(iface, k2, y+a); err != nil {
+					return err
+				}
+				return iface.Goto(name + ".audit")
+			}},
+			{Name: name + ".audit", Body: func(iface distsys.ArchetypeInterface) error {
+				x, err := idx(iface, k1)
+				if err != nil {
+					return err
+				}
+				verifYield()
+				y, err := idx(iface, k2)
+				if err != nil {
+					return err
+				}
+				verifAssert(x+y == sum, "indexed shared variable: an audit sees the invariant (aborted sections leave no effect)")
+				return iface.Goto(name + ".Done")
+			}},
+			{Name: name + ".Done", Body: func(distsys.ArchetypeInterface) error { return distsys.ErrDone }},
+		}
+		arch := distsys.MPCalArchetype{Name: name, Label: name + ".transfer", RequiredRefParams: []string{name + ".bal"},
+			JumpTable: distsys.MakeMPCalJumpTable(sections...), ProcTable: distsys.MakeMPCalProcTable(), PreAmble: func(distsys.ArchetypeInterface) {}}
+		ctx := distsys.NewMPCalContext(tla.MakeNumber(int32(t+1)), arch, distsys.EnsureArchetypeRefParam("bal", mgr.MakeLocalShared()))
+		go func() { done <- ctx.Run() }()
+	}
+	for t := 0; t < 2; t++ {
+		verifAssert(<-done == nil, "every sharer terminates normally")
+	}
+	final := distsys.VerifLocalValue(mgr.res)
+	verifAssert(final.ApplyFunction(k1).AsNumber() == x0-net && final.ApplyFunction(k2).AsNumber() == y0+net, "indexed shared variable: the final state reflects each committed transfer exactly once")
+	verifAssert(len(mgr.lockCh) == 0, "no lock is held at the end")
+	verifReach("end")
+}
